@@ -27,7 +27,7 @@ DENY_EXACT = {
 
 # values tried for optional parameters (by parameter name)
 PARAM_VALUES = {
-    "key": ["w"], "link_attribute": ["w"], "typical_weight": [2.0],
+    "key": ["w"], "link_attribute": ["w"], "typical_weight": [2.137],
     "direction": ["in"], "only_connected": [False], "add_local_ends": [True],
     "exclude_neighbors": [False], "stopping_mode": ["twinness"],
     "l_min": [3], "v_min": [3], "w_min": [2], "lag": [1],
@@ -90,7 +90,7 @@ def query_patterns(obj, deny_extra=(), have_attr=True, max_patterns=4):
                         pats.append({**b, p.name: v})
             both = {p.name for p in opt} & {"key", "typical_weight"}
             if len(both) == 2 and have_attr:
-                pats.append({**b, "key": "w", "typical_weight": 2.0})
+                pats.append({**b, "key": "w", "typical_weight": 2.137})
         for kw in pats[:max_patterns + len(base_sets)]:
             label = n + ("(" + ",".join(f"{k}={v}" for k, v in
                                         sorted(kw.items())) + ")" if kw
